@@ -23,7 +23,7 @@ struct SimFile {
   Hasher log;
   bool closed = false;
   int id = 0;
-  bool lie_seek_ok = false;  // reserved
+  bool read_faults_only = false;   // stdio FILE in between (ov_open over fopencookie): glibc's own position cache is undefined after a failed seek, so only read faults are injected there
 
   void begin_op(const std::vector<IoFault> &f) { faults = f; op_cb = 0; }
   void heal() { active_kind = IOF_NONE; active_left = 0; faults.clear(); }
@@ -32,6 +32,7 @@ struct SimFile {
     int ord = op_cb++;
     for (auto &f : faults) if (f.ord == ord && f.kind != IOF_NONE) { active_kind = f.kind; active_left = f.persist == 0 ? 1 : f.persist; }
     if (active_kind == IOF_NONE) return IOF_NONE;
+    if (read_faults_only && !is_read) return IOF_NONE;
     int k = active_kind; bool applies = false;
     if (is_read && (k == IOF_EIO || k == IOF_EOF0 || k == IOF_SHORT1)) applies = true;
     if (is_seek && k == IOF_SEEKFAIL) applies = true;
